@@ -54,6 +54,9 @@ def main(pid, tier, seed, replay=None):
     w = workdir("codec-" + pid)
     if replay:
         rp = json.load(open(replay))
+        if rp.get("kind") == "trace":          # a recorded session (second observation point of C02)
+            import client_check as CC
+            return CC.main(pid, tier, seed, replay)
         path = os.path.join(w, "replay.ndjson")
         with open(path, "w") as f:
             for r in rp["records"]:
@@ -119,16 +122,30 @@ def main(pid, tier, seed, replay=None):
         "rejected_records_other_property": len(rej) - len(mine),
     }
     viol = 0
+    if pid == "C02":
+        # the second observation point of C02: the bytes handed to transport.write() during live sessions
+        import client_check as CC
+        n_s, acc_s, hit_s, viol_s, path_s = CC.session_bytes(pid, tier, seed)
+        cov["sessions"] = {"executions": n_s, "accepted": acc_s, "with_packets_written": hit_s,
+                           "rule": "executions of the client recorded by the drivers (families mixed, retry, persist, enum:resume, enum:handshake); every "
+                                   "packet written is decoded by MqttCodec!DecodeStrict for the protocol level in force (TraceMon, Prop = C02)"}
+        cov["traces_validated_against_impl"] += acc_s
+        for x in viol_s[:8]:
+            print("session trace %s line %s: %s %s" % (x[1], x[2], x[3], json.dumps(x[4])[:200]))
+        if viol_s:
+            print("VIOLATION property=%s replay=%s" % (pid, path_s)); viol += len(viol_s)
     if mine:
         first = sorted(mine)[:20]
         path = save_replay(pid, "seed%d-%s" % (seed, tier), {"kind": "codec-records", "regenerate": "./check %s --tier %s --seed %d" % (pid, tier, seed),
                                                             "clauses": {str(i): mine[i] for i in first}, "records": [shrink(recs[i]) for i in first]})
         for i in first[:10]:
             print("record %d (%s): %s" % (i, recs[i].get("t", recs[i]["op"]), mine[i]))
-        print("VIOLATION property=%s replay=%s" % (pid, path)); viol = len(mine)
+        print("VIOLATION property=%s replay=%s" % (pid, path)); viol += len(mine)
     write_evidence(pid, tier, seed, cov, time.time() - t0, viol, ASSUME)
     shutil.rmtree(w, ignore_errors=True)
-    print("%s %s: %d records judged (%d ok), U1 %d states; %s" % (pid, tier, n, len(ok), states, "VIOLATED" if viol else "held"))
+    print("%s %s: %d records judged (%d ok)%s, U1 %d states; %s" % (pid, tier, n, len(ok),
+          (", %d sessions judged (%d accepted)" % (cov["sessions"]["executions"], cov["sessions"]["accepted"])) if "sessions" in cov else "",
+          states, "VIOLATED" if viol else "held"))
     return 1 if viol else 0
 
 
